@@ -57,8 +57,13 @@ func (r *simReader) Read(p []byte) (int, error) {
 	}
 	copy(p, r.data[r.pos:r.pos+n])
 	r.pos += n
+	// a stream delivers its bytes and then the caller is descheduled: under the
+	// seeded scheduler another task may run before the bytes are consumed
+	verifrt.Y(siteSimReader)
 	return n, nil
 }
+
+const siteSimReader = 48
 
 // simLenReader additionally advertises its remaining length (like bytes.Reader).
 type simLenReader struct{ simReader }
@@ -75,6 +80,12 @@ func newReader(data []byte, chunks []int, failAt int, withLen bool) io.Reader {
 
 // drain reads r to EOF with the given buffer sizes (cycled).
 func drain(r io.Reader, sizes []int) ([]byte, error) {
+	if len(sizes) > 0 && sizes[0] < 0 {
+		// the way io.Copy drains: through WriterTo when the reader offers it
+		var buf bytes.Buffer
+		_, err := io.Copy(&buf, r)
+		return buf.Bytes(), err
+	}
 	var out []byte
 	if len(sizes) == 0 {
 		sizes = []int{64}
